@@ -39,7 +39,7 @@ add("C06", "model_checking", "History.tla specifies the store at call granularit
     "FileCache.tla models the status cache at the grain of LoadLatest's own steps under overlapping queries, appends and manual updates (TLC: no query returns an older status than the file held when it looked, none panics; Apalache: an inductive invariant implying both, for any number of writes and queries); "
     "its simulated behaviours and counter-examples are replayed through the verif gates of the real filecache under the real jsondb and every gate passage and returned status is validated by TLC (FileCacheTrace); "
     "HistoryConc.tla models a query (listing, then one read per file) against the recorder's compaction and the next run's opening; its behaviours are replayed through gates in jsondb and the answer must be one the store would have given at some moment while the query ran (HistoryConcTrace)",
-    REC_NOTE + "; status payloads are opaque ids", "TLA+ model of the history store (TLC) + TLC-generated and random operation sequences replayed on the real jsondb, every answer validated against the model by TLC", "hist", "5/C06")
+    REC_NOTE + "; status payloads are opaque ids; Apalache + Z3 for the inductive invariant of the cache model; the cache / compaction interleavings are those at the gates of the verif build", "TLA+ models of the history store, of its status cache and of a query against the compaction (TLC, Apalache) + TLC-generated operation sequences and schedules replayed on the real jsondb / filecache, every answer and gate passage validated against the models by TLC", "hist", "5/C06")
 
 add("C07", "fault_enumeration", "a child process executing history operations on the real jsondb is SIGKILLed by a ptrace supervisor at the entry of every mutating system call under the data directory and at three torn prefixes of every write; "
     "a fresh process asks all queries; TLC judges every record: the answers must fit one of the legal states between 'acknowledged operations applied' and 'operation in flight applied too' (CrashObserve, History semantics); "
